@@ -17,105 +17,7 @@ PROPS = ['C17']
 RLIMIT = 30
 
 SPEC = r'''
-use vstd::std_specs::iter::IteratorSpec;
-use std::borrow::Cow;
-use core::iter::FusedIterator;
 
-// ---- byte offsets of character positions in a str (UTF-8): boff(s, k) = bytes before char k
-pub uninterp spec fn boff(s: Seq<char>, k: int) -> int;
-pub broadcast axiom fn axiom_boff_zero(s: Seq<char>)
-    ensures #[trigger] boff(s, 0) == 0;
-pub broadcast axiom fn axiom_boff_mono(s: Seq<char>, i: int, j: int)
-    requires 0 <= i < j <= s.len()
-    ensures #[trigger] boff(s, i) < #[trigger] boff(s, j);
-// the double quote is ASCII: one byte
-pub broadcast axiom fn axiom_boff_quote(s: Seq<char>)
-    requires s.len() > 0, s[0] == '"'
-    ensures #[trigger] boff(s, 1) == 1;
-pub open spec fn is_boundary(s: Seq<char>, a: int) -> bool { exists|k: int| 0 <= k <= s.len() && #[trigger] boff(s, k) == a }
-pub open spec fn char_at_off(s: Seq<char>, a: int) -> int { choose|k: int| 0 <= k <= s.len() && #[trigger] boff(s, k) == a }
-pub open spec fn first_index(s: Seq<char>, c: char) -> int
-    decreases s.len()
-{ if s.len() == 0 { 0 } else if s[0] == c { 0 } else { 1 + first_index(s.skip(1), c) } }
-proof fn lemma_first_index(s: Seq<char>, c: char)
-    ensures 0 <= first_index(s, c) <= s.len(),
-        forall|j: int| 0 <= j < first_index(s, c) ==> s[j] != c,
-        first_index(s, c) < s.len() ==> s[first_index(s, c)] == c,
-        s.contains(c) <==> first_index(s, c) < s.len(),
-    decreases s.len()
-{
-    if s.len() > 0 && s[0] != c {
-        lemma_first_index(s.skip(1), c);
-        let f = first_index(s.skip(1), c);
-        assert forall|j: int| 0 <= j < 1 + f implies s[j] != c by { if j > 0 { assert(s.skip(1)[j - 1] == s[j]); } }
-        if f < s.skip(1).len() { assert(s.skip(1)[f] == s[f + 1]); }
-        if s.contains(c) {
-            let j = choose|j: int| 0 <= j < s.len() && s[j] == c;
-            assert(s.skip(1)[j - 1] == c);
-        }
-        if s.skip(1).contains(c) {
-            let j = choose|j: int| 0 <= j < s.skip(1).len() && s.skip(1)[j] == c;
-            assert(s[j + 1] == c);
-        }
-    } else if s.len() > 0 {
-        assert(s[0] == c);
-    }
-}
-
-proof fn lemma_off_unique(s: Seq<char>, k: int)
-    requires 0 <= k <= s.len()
-    ensures is_boundary(s, boff(s, k)), char_at_off(s, boff(s, k)) == k
-{
-    let a = boff(s, k);
-    assert(is_boundary(s, a));
-    let c = char_at_off(s, a);
-    if c < k { axiom_boff_mono(s, c, k); } else if c > k { axiom_boff_mono(s, k, c); }
-}
-pub open spec fn last_index(s: Seq<char>, c: char) -> int
-    decreases s.len()
-{ if s.len() == 0 { -1 } else if s.last() == c { s.len() - 1 } else { last_index(s.drop_last(), c) } }
-proof fn lemma_last_index(s: Seq<char>, c: char)
-    ensures -1 <= last_index(s, c) < s.len(), last_index(s, c) >= 0 ==> s[last_index(s, c)] == c, s.contains(c) <==> last_index(s, c) >= 0,
-        forall|j: int| last_index(s, c) < j < s.len() ==> s[j] != c
-    decreases s.len()
-{
-    if s.len() > 0 && s.last() != c {
-        lemma_last_index(s.drop_last(), c);
-        if s.contains(c) { let j = choose|j: int| 0 <= j < s.len() && s[j] == c; assert(s.drop_last()[j] == c); }
-        if s.drop_last().contains(c) { let j = choose|j: int| 0 <= j < s.drop_last().len() && s.drop_last()[j] == c; assert(s[j] == c); }
-        assert forall|j: int| last_index(s, c) < j < s.len() implies s[j] != c by { if j < s.len() - 1 { assert(s.drop_last()[j] == s[j]); } }
-    } else if s.len() > 0 { assert(s[s.len() - 1] == c); }
-}
-// offsets inside a suffix are offsets of the whole text, shifted
-pub broadcast axiom fn axiom_boff_suffix(s: Seq<char>, k: int, j: int)
-    requires 0 <= k, 0 <= j, k + j <= s.len()
-    ensures #[trigger] boff(s.skip(k), j) == boff(s, k + j) - boff(s, k);
-// ---- R34 wrappers (assumed contracts)
-pub assume_specification<'a> [core::str::Chars::<'a>::as_str] (c: &core::str::Chars<'a>) -> (r: &'a str)
-    ensures r@ == c.remaining();
-#[verifier::external_body]
-pub fn str_find_char(s: &str, c: char) -> (r: Option<usize>)
-    ensures r is None <==> !s@.contains(c), r is Some ==> r->0 as int == boff(s@, first_index(s@, c))
-{ unimplemented!() }
-#[verifier::external_body]
-pub fn str_rfind_char(s: &str, c: char) -> (r: Option<usize>)
-    ensures r is None <==> !s@.contains(c), r is Some ==> r->0 as int == boff(s@, last_index(s@, c))
-{ unimplemented!() }
-#[verifier::external_body]
-pub fn str_starts_with_char(s: &str, c: char) -> (r: bool) ensures r == (s@.len() > 0 && s@[0] == c) { unimplemented!() }
-#[verifier::external_body]
-pub fn str_len(s: &str) -> (r: usize) ensures r as int == boff(s@, s@.len() as int) { unimplemented!() }
-// &s[a..] / &s[..b]: panic unless the offset is a character boundary (hence the precondition)
-#[verifier::external_body]
-pub fn str_from<'a>(s: &'a str, a: usize) -> (r: &'a str)
-    requires is_boundary(s@, a as int)
-    ensures r@ == s@.skip(char_at_off(s@, a as int))
-{ unimplemented!() }
-#[verifier::external_body]
-pub fn str_to<'a>(s: &'a str, b: usize) -> (r: &'a str)
-    requires is_boundary(s@, b as int)
-    ensures r@ == s@.take(char_at_off(s@, b as int))
-{ unimplemented!() }
 pub uninterp spec fn cow_text<'a>(c: Cow<'a, str>) -> Seq<char>;
 #[verifier::external_body]
 pub fn cow_borrowed<'a>(s: &'a str) -> (r: Cow<'a, str>) ensures cow_text(r) == s@ { unimplemented!() }
@@ -174,6 +76,8 @@ pub fn unquote_to_string<'a>(u: &Unquote<'a>) -> (r: String) ensures r@ == unq(u
 
 def build(repo):
     u = Unit(NAME, repo)
+    u.raw('use vstd::std_specs::iter::IteratorSpec;\nuse std::borrow::Cow;\nuse core::iter::FusedIterator;\n', 'units/unq.py')
+    u.prelude('strmodel.rs')
     u.raw(SPEC, 'units/unq.py')
     u.items('link_format.rs', 'const QUOTE_ESCAPE_CHAR', 'pub struct Unquote', 'enum UnquoteState')
     u.impl_fns('link_format.rs', "impl<'a> Unquote<'a>", ['new', 'to_cow', 'is_quoted'])
@@ -205,7 +109,7 @@ def build(repo):
             // @clause cow-equals-iterator @props C17
             cow_text(r) == unq(self.state, self.inner.remaining())''', props=PROPS)
     # all hints are facts about the remaining text, stated up front (no anchors inside the body)
-    u.body_start(TC, '''        broadcast use axiom_boff_zero; broadcast use axiom_boff_mono; broadcast use axiom_boff_quote;''')
+    u.body_start(TC, '''        broadcast use axiom_boff_zero; broadcast use axiom_boff_mono; broadcast use axiom_boff_ascii;''')
     u.after(TC, r'let str_ref = self\.inner\.as_str\(\);', '''        let ghost rest = str_ref@;
         proof {
             let tail = rest.skip(1);
